@@ -15,6 +15,7 @@ CHECKS = {
     "C05": "pprops",
     "C13": "pprops",
     "C07": "c07",
+    "C08": "c08",
     "C15": "c15",
 }
 
